@@ -19,13 +19,13 @@ LEVEL = "exploration"
 TECHNIQUE = "solo-replay differential over interleaved multi-instance request histories; HTTP request/response recorder"
 RULE = ("k=2..3 instances, 3-8 requests each from {begin-session (with / without settings), run-step with constants / points / {} / no body, "
         "run-steps, stream-steps, session-results, flat-session-results, end-session, keep-alive, stop-instance}; ALL interleavings of 2x3 requests "
-        "for 12 script pairs (quick) / 40 (thorough) + seeded random interleavings of longer scripts; one instance stopped or timed out "
+        "for 12 script pairs (quick) / 40 (thorough) + seeded random interleavings of longer scripts; a malformed start-instance request (timeout values that are no numbers) thrown in by a third party in every third random case; one instance stopped or timed out "
         "(controlled clock) midway; instances created up front, lazily (also after another instance was stopped) or by one /start-instances batch; three factory styles (model per instance / one shared module-level model / engines that load JSON scenario files and a model file from the working directory); begin-session settings incl. run specs that move one instance onto another time grid; with and without a file adapter. The solo replays run in a FRESH PROCESS (module-level state left behind by other engines cannot reach them). "
         "distinct_nontrivial = distinct (script pair, interleaving) in which both instances change settings and at least one request of one "
         "instance lies between two requests of the other.")
 ASSUMPTIONS = ["the instance that is stopped / timed out is not compared after that point; all others are",
                "responses are compared as parsed JSON (key order ignored), instance ids normalised"]
-REQUIRED = {"file_based_factories": 5, "solo_replays_in_fresh_process": 100, "interleavings": 200, "responses_compared": 2000, "solo_replays": 100}
+REQUIRED = {"malformed_foreign_requests": 10, "file_based_factories": 5, "solo_replays_in_fresh_process": 100, "interleavings": 200, "responses_compared": 2000, "solo_replays": 100}
 BUDGET_S = {"quick": 110, "thorough": 1500}
 
 
@@ -88,7 +88,7 @@ def norm(body, ids):
         return body
 
 
-def play(scripts, order, shared, adapter, kill=None, kill_at=None, short=None, creation="upfront", files_tag=None):
+def play(scripts, order, shared, adapter, kill=None, kill_at=None, short=None, creation="upfront", files_tag=None, poison_at=None):
     """Runs the interleaving `order` (list of instance indices) on a fresh server.
     Returns per-instance list of (status, normalised body)."""
     from vlib import srv
@@ -131,6 +131,9 @@ def play(scripts, order, shared, adapter, kill=None, kill_at=None, short=None, c
                     else:
                         clock.advance(seconds=45)       # the short-timeout instance expires; nobody else does
                         c.get("/full-metrics")
+                if poison_at is not None and n == poison_at[0]:
+                    # somebody else's malformed request (it starts no instance of the scripts): the others must not notice
+                    c.post(poison_at[1], json=poison_at[2])
                 clock.advance(seconds=1)
                 if i not in ids:
                     # lazy creation: the instance is started right before its first request (possibly after another one was stopped)
@@ -248,7 +251,14 @@ def _run(case, scripts, orders, kill, kill_at, short, files_tag, counters, nts):
     changes = sum(1 for i in scripts if any(b and ("settings" in b and b["settings"]) for _, b in scripts[i]))
     for order in orders:
         counters["interleavings"] = counters.get("interleavings", 0) + 1
-        got = play(scripts, order, case["shared"], case["adapter"], kill, kill_at, short, creation=case.get("creation", "upfront"), files_tag=files_tag)
+        poison = None
+        if case["kind"] == "random" and case["seed"] % 3 == 0:
+            prng = random.Random(case["seed"] + len(order))
+            poison = (prng.randrange(len(order)),) + prng.choice([
+                ("/start-instance", {"timeout": {"seconds": "3"}}), ("/start-instance", {"timeout": {"minutes": None}}), ("/start-instance", {"timeout": {"hours": [1]}}),
+                ("/start-instance", {"timeout": "soon"}), ("/start-instances", {"instances": 2, "timeout": {"seconds": "x"}}), ("/start-instance", {"timeout": {"fortnights": 2}})])
+            counters["malformed_foreign_requests"] = counters.get("malformed_foreign_requests", 0) + 1
+        got = play(scripts, order, case["shared"], case["adapter"], kill, kill_at, short, creation=case.get("creation", "upfront"), files_tag=files_tag, poison_at=poison)
         got = json.loads(json.dumps(got))          # same normal form as the child's answers (tuples -> lists)
         got = {int(i): [tuple(x) for x in v] for i, v in got.items()}
         if changes >= 2 and any(order[j] != order[j + 1] for j in range(len(order) - 1)):
